@@ -234,3 +234,44 @@ def rule_edge_fields(P):
 
 
 RULES = [rule_callers, rule_active_count, rule_cache_before_rewrite, rule_exchange_once, rule_edge_fields]
+
+
+def rule_result_by_value(P):
+    """the apply() wrappers (binary_operation / unary_operation ::compute, ::computeTemp) call the operation's recursion with an *output* edge value.
+    That output must be a local of the wrapper, installed into the caller's result edge only after the recursion has returned: the result edge may be
+    the same object as an operand (c = a - c, x = x + y), whose edge value the recursion still has to read after it started writing its output — and
+    when the recursion throws, the caller's result edge must be left as it was"""
+    import re
+    R = RuleResult("layer.result-by-value", "no call hands `p.setEdgeValue()` (a reference into the dd_edge parameter p) to a callee while another dd_edge parameter of the same function is also passed: the wrappers compute into a local edge value and install it with p.set(value, node) afterwards")
+    n_wr = 0
+    for f in sorted(P.fns.values(), key=lambda f: (f["file"], f["line"], f["inst"])):
+        if not f.get("cfg"):
+            continue
+        edges = [p_["name"] for p_ in f.get("params", []) if (p_.get("rec") or "").endswith("dd_edge")]
+        if len(edges) < 2:
+            continue
+        for b in f["cfg"]["blocks"]:
+            for e in b["ev"]:
+                if e["k"] != "call":
+                    continue
+                outs = [m.group(1) for a in (e.get("args") or []) for m in [re.fullmatch(r"(\w+)\.setEdgeValue\(\)", re.sub(r"\s+", "", a))] if m]
+                outs = [o for o in outs if o in edges]
+                ins = {m.group(1) for a in (e.get("args") or []) for m in re.finditer(r"(\w+)\.(?:getEdgeValue|getNode)\(\)", a)} & set(edges)
+                if outs and (ins - set(outs)):
+                    R.paths += 1
+                    R.functions.add(f["inst"])
+                    iid = "%s%s: %s.setEdgeValue() handed to %s together with %s" % (base_name(f["q"]).replace(M, ""), f["sig"][:30], outs[0], e["q"].split("::")[-1], sorted(ins - set(outs)))
+                    R.fail(iid, where(f, e["line"]), Finding(R.rule, f["file"], base_name(f["q"]) + f["sig"], "out:%s.setEdgeValue()@%d" % (outs[0], len([x for x in R.findings if x.fn == base_name(f["q"]) + f["sig"]])),
+                           "the recursion writes its output straight into the edge value stored in `%s`; when the caller passes the same edge as an operand (c = a - c) the operand's edge value is overwritten before it is read, and when the recursion throws the caller's edge keeps a half-written value" % outs[0], e["line"]))
+        # positive form: computes into a local, installs afterwards
+        g = None
+        for b in f["cfg"]["blocks"]:
+            for e in b["ev"]:
+                if e["k"] == "call" and e["q"].endswith("dd_edge::set") and len(e.get("args") or []) == 2 and (e.get("recv") in edges) and f["file"] in ("oper_binary.cc", "oper_unary.cc"):
+                    n_wr += 1
+                    R.paths += 1
+                    R.functions.add(f["inst"])
+                    R.ok("%s%s: result installed by %s.set(%s) after the recursion" % (base_name(f["q"]).replace(M, ""), f["sig"][:30], e["recv"], ", ".join(e["args"])), where(f, e["line"]))
+    if not R.findings and n_wr < 4:
+        raise AnalysisBroken("layer.result-by-value: expected the apply() wrappers in oper_binary.cc / oper_unary.cc to install their result with res.set(value, node) (≥4 sites), found %d" % n_wr)
+    return R
